@@ -587,10 +587,11 @@ def ops_for(walker, me, tier):
     return []
 
 
-def exhaustive_walk(fx, exe, out_dir, tier, max_states, seed=1, profile=None):
+def exhaustive_walk(fx, exe, out_dir, tier, max_states, seed=1, profile=None, parts=4):
     """systematic exploration driven by what the implementation does: breadth-first over observed persistent states;
     in every state every base call of the menu, and for every callback that call really invokes, every op of a small
-    menu scripted into that callback (so every scripted hook fires).  Variants run on a copy of the base instance."""
+    menu scripted into that callback (so every scripted hook fires).  Variants run on a copy of the base instance.
+    The variants of one base state are spread over `parts` trace files (validated in parallel)."""
     rnd = random.Random(seed)
     w = Walker(fx, rnd, profile)
     fl, manual = w.fl, w.cfg["manual"]
@@ -609,74 +610,88 @@ def exhaustive_walk(fx, exe, out_dir, tier, max_states, seed=1, profile=None):
         return ls
 
     seen, frontier = {}, []
-    start = (["new", "enter"] if manual else ["new"])
-    frontier.append(start)
+    frontier.append(["new", "enter"] if manual else ["new"])
     si = 0
     while frontier and si < max_states and crash is None:
         path = frontier.pop(0)
-        f = os.path.join(out_dir, "%s-exh-%d.ndjson" % (fx["name"], si))
-        ex = Exec(exe, f)
-        ex.send("slot 0")
-        rec = None
-        for cmd in path:
-            rec = ex.call(cmd) if not cmd.startswith(("hook", "sel", "rank", "util", "rng")) else (ex.send(cmd) or rec)
-        if rec is None or ex.dead:
-            crash = ex.dead
-            ex.close()
-            files.append(f)
-            break
-        k0 = key(rec["post"])
-        if k0 in seen:
-            ex.close()
-            os.remove(f)
-            try:
-                os.remove(f + ".cmds")
-            except OSError:
-                pass
-            continue
-        seen[k0] = path
-        si += 1
-
-        def variant(lines, cmd):
-            ex.send("slot 1")
-            c = ex.call("copy 0")
-            if c is None:
-                return None
-            for ln in lines:
-                ex.send(ln)
-            r = ex.call(cmd)
-            if r is None:
-                return None
-            ex.call("del")
+        base_post = None
+        for part in range(parts):
+            f = os.path.join(out_dir, "%s-exh-%d-%d.ndjson" % (fx["name"], si, part))
+            ex = Exec(exe, f)
             ex.send("slot 0")
-            return r
-
-        for lab in labels(rec["post"]):
-            r0 = variant([], lab)
-            if r0 is None:
+            rec = None
+            for cmd in path:
+                if cmd.startswith(("hook", "sel", "rank", "util", "rng")):
+                    ex.send(cmd)
+                else:
+                    rec = ex.call(cmd)
+            if rec is None or ex.dead:
+                crash = ex.dead
+                ex.close()
+                files.append(f)
                 break
-            if key(r0["post"]) not in seen and r0["post"]["on"]:
-                frontier.append(path + [lab])
-            fired = []
-            for e in r0["ev"]:
-                if (e[0], e[1]) not in fired and (e[1][2:] if e[1].startswith("i_") else e[1]) in HOOKABLE:
-                    fired.append((e[0], e[1]))
-            for (s, me) in fired:
-                for op in ops_for(w, me, tier):
-                    hook = "hook %d %s 1 %s" % (s, me, op.replace("SELF", str(s)))
-                    r = variant([hook], lab)
-                    if r is None:
+            if part == 0:
+                k0 = key(rec["post"])
+                if k0 in seen:
+                    ex.close()
+                    for g in (f, f + ".cmds"):
+                        try:
+                            os.remove(g)
+                        except OSError:
+                            pass
+                    base_post = None
+                    break
+                seen[k0] = path
+                base_post = rec["post"]
+
+            def variant(lines, cmd):
+                ex.send("slot 1")
+                c = ex.call("copy 0")
+                if c is None:
+                    return None
+                for ln in lines:
+                    ex.send(ln)
+                r = ex.call(cmd)
+                if r is None:
+                    return None
+                ex.call("del")
+                ex.send("slot 0")
+                return r
+
+            labs = labels(base_post)
+            for li, lab in enumerate(labs):
+                if li % parts != part:
+                    continue
+                r0 = variant([], lab)
+                if r0 is None:
+                    break
+                if key(r0["post"]) not in seen and r0["post"]["on"] and len(frontier) < 4 * max_states:
+                    frontier.append(path + [lab])
+                fired = []
+                for e in r0["ev"]:
+                    if (e[0], e[1]) not in fired and (e[1][2:] if e[1].startswith("i_") else e[1]) in HOOKABLE:
+                        fired.append((e[0], e[1]))
+                for (s, me) in fired:
+                    for op in ops_for(w, me, tier):
+                        hook = "hook %d %s 1 %s" % (s, me, op.replace("SELF", str(s)))
+                        r = variant([hook], lab)
+                        if r is None:
+                            break
+                        if key(r["post"]) not in seen and r["post"]["on"] and len(frontier) < 4 * max_states:
+                            frontier.append(path + [hook, lab])
+                    if ex.dead:
                         break
-                    if key(r["post"]) not in seen and r["post"]["on"] and len(frontier) < 4 * max_states:
-                        frontier.append(path + [hook, lab])
                 if ex.dead:
                     break
             if ex.dead:
+                crash = ex.dead
+            else:
+                ex.call("del")
+            ex.close()
+            total += ex.records
+            files.append(f)
+            if crash:
                 break
-        if ex.dead:
-            crash = ex.dead
-        ex.call("del")
-        ex.close()
-        total += ex.records
-        files.append(f)
+        if base_post is not None:
+            si += 1
     return files, total, crash
